@@ -19,6 +19,9 @@ CLAIMED = {
  'C09': dict(
    text="Proof for all inputs: every tensor-algebra member and free operator of PlanarVector/Vector/SymmetricDyad/Dyad (instantiated bodies from clang's AST) equals the textbook index formula on the 3x3 embedding as a function over the reals (one z3 obligation per function/component group); Inverse*A==I and A*Inverse==I when det!=0; Inverse present iff computed determinant != 0 and each slot == adjugate/det bit-precisely (CBMC contract, callee contracts). Rounding ('few ulps') is not machine-checked: identities are over exact reals.",
    ref="DESIGN.md 5 C09"),
+ 'C14': dict(
+   text="Proof for all non-NaN bit patterns (signed zeros and infinities included) of binary64 (thorough: binary32): each of the six comparison operators of every quantity class, the four vector/tensor classes and Dimensions equals the lexicographic order / equality of the stored components in declared order (CBMC contract per operator over the instantiated bodies, MiniSat); equal objects have equal hashes (2-safety CBMC harness over the extracted std::hash specialisations, std::hash<floating> as an uninterpreted function of the zero-canonicalised value).",
+   ref="DESIGN.md 5 C14", note="Totality/transitivity of the lexicographic order itself is a mathematical fact, not re-proved per type. Constitutive-model classes not yet included. long double not run bit-precisely."),
 }
 REASONS = {'C19': "static-initialisation order is a property of the compilers' start-up schedule, not of any function's pre/postcondition; CBMC has no model of C++ dynamic initialisation and contracts cannot express it (DESIGN.md 6)"}
 checks = []
